@@ -104,7 +104,9 @@ func c13Structured() []c13RegexItem {
 		items = append(items, c13RegexItem{pat: bad, reject: true})
 	}
 	// valid optional / nested shapes: accepted, lookups total
-	for _, ok := range []string{"/a[/b]", "/a[/{x}]", "/a[/{x}[/{y}]]", "/a[.html]", "/[{x}]", "/a[/b[/c]]", `/a/{x:\d+}[/{y}]`, "/{all}", "/{any}/{num}"} {
+	for _, ok := range []string{"/a[/b]", "/a[/{x}]", "/a[/{x}[/{y}]]", "/a[.html]", "/[{x}]", "/a[/b[/c]]", `/a/{x:\d+}[/{y}]`, "/{all}", "/{any}/{num}",
+		// literal starts that span several segments
+		"/a/x/{id}", "/a/x/1/{id}", "/a/x/1[/{id}]", "/a/x/{id}/y", "/a/a/a/a/{id}", "/a.x/x.1/{id}", "/a/x/q{id}", "/site/settings/{id}", "/api/v1/users/{id}[/{x}]"} {
 		items = append(items, c13RegexItem{pat: ok, reject: false, paths: []string{"/a", "/a/b", "/a/b/c", "/a/1", "/a/1/2", "/a.html", "/", "/x", "/x/12"}})
 	}
 	return items
@@ -509,6 +511,23 @@ func c13Run(c c13Case, st *fw.Stats) []fw.Viol {
 		}
 		st.Inc("controls_accepted", 1)
 		c13Lookups(r, append(append([]string{}, c.Paths...), c13ShortPaths[:31]...), what, st, add)
+		// every byte prefix of the pattern's literal start (extended by a value and a further segment), with and without
+		// a trailing slash: lengths just below, at and above every internal boundary
+		lit := c.Pattern
+		if i := strings.IndexAny(lit, "{["); i >= 0 {
+			lit = lit[:i]
+		}
+		lit += "7/zz"
+		for k := 0; k <= len(lit); k++ {
+			for _, p := range []string{lit[:k], lit[:k] + "/"} {
+				for _, m := range []string{"GET", "POST", "HEAD", "DELETE"} {
+					st.Evals++
+					if pv := try(func() { r.Match(m, p) }); pv != nil {
+						add("lookup:panic:match", fmt.Sprintf("%s was accepted by registration, but Match(%q,%q) panicked: %v", what, m, p, pv))
+					}
+				}
+			}
+		}
 	case "raw":
 		prefix := ""
 		for _, i := range c.Prefix {
